@@ -43,7 +43,7 @@ assert rc == 0, out
 try:
     for p in props:
         t0 = time.time()
-        rc, out = sh(f"./check {p} quick", cwd="/verif")
+        rc, out = sh(f"VERIF_ROOT=/tmp/verif-snap ./check {p} quick", cwd="/tmp/verif-snap")
         lines = [l[:300] for l in out.splitlines() if l.startswith(("violation:", "VIOLATION", "KNOWN", "harness"))]
         meta["ran"].append({"cmd": f"./check {p} quick", "exit": rc, "wall_s": round(time.time() - t0, 1), "lines": lines[:6]})
         print(p, "exit", rc, *lines[:3], sep="\n   ")
